@@ -23,6 +23,7 @@ PROP = {
              "cancelled-result-without-cancel", "cancel-completed-with-success", "cancel-left-operation-in-flight",
              "operation-never-completed-although-ready", "callback-of-unknown-op", "handler-nesting-broken", "return-without-call",
              "op-id-reused", "panic"],
+    "secondary_keys": ["operation-never-completed-although-ready", "cancel-left-operation-in-flight"],
     "rule": LOOP_RULE,
     "trusted_base": LOOP_TB,
     "assumptions": [
